@@ -477,6 +477,7 @@ type dlCall struct {
 	Interval string `json:"interval"`
 	Mode     string `json:"mode"` // output | file | autoread
 	Retry    bool   `json:"retry"`
+	Digest   bool   `json:"digest"` // first answer: 401 with a Digest challenge and a body of FB bytes; the client re-sends with credentials
 	FB       int    `json:"first_attempt_body"`
 	Proto    string `json:"proto,omitempty"`
 }
@@ -492,6 +493,13 @@ func (g *gen) downloadCallCases() {
 		if i%7 == 3 {
 			in.Retry = true
 			in.FB = hk.Pick(rng, []int{0, 9, 600})
+		}
+		if i%7 == 5 || i%7 == 6 {
+			// digest challenge with a page of its own (no redirect hops: the library re-sends the ORIGINAL
+			// request after a 401, so a challenge behind a redirect is answered at the first URL again)
+			in.Digest = true
+			in.FB = hk.Pick(rng, []int{0, 1, 315, 4096, 5000})
+			in.Hops = 0
 		}
 		if i%11 == 6 {
 			in.Proto = hk.Pick(rng, []string{"h2", "h3"})
@@ -522,9 +530,15 @@ func (g *gen) oneDownloadCall(in dlCall) {
 	case "h3":
 		c.EnableInsecureSkipVerify().EnableForceHTTP3()
 	}
+	if in.Digest {
+		c.SetCommonDigestAuth("user", "secret")
+	}
 	defer c.GetTransport().CloseIdleConnections()
 	x := g.nextX()
 	u := g.o.urlFor(in.Proto, x) + fmt.Sprintf("&dl=%s&hops=%d&rb=%d&rs=%d", id, in.Hops, in.RB, in.Status)
+	if in.Digest {
+		u += fmt.Sprintf("&first=401&fb=%d", in.FB)
+	}
 	if !in.CL {
 		u += "&cl=0"
 	}
@@ -584,6 +598,9 @@ func (g *gen) oneDownloadCall(in dlCall) {
 	if in.Retry {
 		r.Count("download-call:retried")
 	}
+	if in.Digest {
+		r.Count("download-call:digest")
+	}
 	if err != nil || resp == nil || resp.Err != nil || resp.StatusCode != 200 {
 		r.Fail(hk.Failure{Sig: "download-call:error", What: fmt.Sprintf("download through %d redirect hop(s) failed: %v", in.Hops, err), Input: in})
 		return
@@ -634,6 +651,9 @@ func (g *gen) oneDownloadCall(in dlCall) {
 			if in.Retry {
 				shape += "+retried"
 			}
+			if in.Digest {
+				shape += "+digest"
+			}
 			r.Fail(hk.Failure{Sig: "download-call:" + bad + ":" + shape, What: fmt.Sprintf("download callback reports of attempt %d violate the property (%s): the body saved has %d bytes", k, bad, total), Input: in, Got: reps, Want: total})
 			r.Add(hk.Case{Desc: in}, key, true)
 			return
@@ -676,6 +696,9 @@ func (g *gen) oneDownloadCall(in dlCall) {
 			d = 2048
 		}
 		bodies = append(bodies, body([]int{d}))
+	}
+	if in.Digest { // the 401 page: wrapped like every body of the call, closed without being read
+		bodies = append(bodies, hk.CoqPair("0%Z", "[]"))
 	}
 	bodies = append(bodies, body(tail))
 	var last []int64
